@@ -1,14 +1,342 @@
 package main
 
-// Concurrent mode (placeholder until the scheduler is built): sequential executions have threads == nil.
+// Concurrent mode: interpreted threads (created by the vpGo intrinsic) are real goroutines that hand control to
+// each other explicitly, so exactly one runs at any time. Context switches happen only at yield points - operations
+// on the mutexes of the code under test (fragment locks, the named locker), RPC boundaries and vpYield() - and the
+// scheduler's pick at each yield point is one more decision of the path exploration: every interleaving at that
+// granularity is explored, with the data still symbolic.
 
-type scheduler struct{}
-type thread struct{}
+import (
+	"fmt"
+	"strings"
+	"sync"
+)
 
-func (s *scheduler) spawn(ex *Exec, fn Value, args []Value)          { panic(engineErr("threads mode not built")) }
-func (s *scheduler) chanSend(ex *Exec, c *ChanV, v Value)            { panic(engineErr("threads mode not built")) }
-func (s *scheduler) chanRecv(ex *Exec, c *ChanV, commaOk bool) Value { panic(engineErr("threads mode not built")) }
-func (s *scheduler) wakeAll()                                        {}
-func (s *scheduler) lock(ex *Exec, m StructV, write bool)            { panic(engineErr("threads mode not built")) }
-func (s *scheduler) unlock(ex *Exec, m StructV, write bool)          { panic(engineErr("threads mode not built")) }
-func (s *scheduler) tryLock(ex *Exec, m StructV) bool                { panic(engineErr("threads mode not built")) }
+type threadKill struct{}
+
+type thread struct {
+	id      int
+	wake    chan struct{}
+	state   int // 0 runnable, 1 blocked on a mutex, 2 finished, 3 waiting in join
+	waitOn  *Value
+	fn      Value
+	kill    bool
+	started bool
+}
+
+type scheduler struct {
+	ex      *Exec
+	threads []*thread
+	cur     *thread
+	abort   interface{}
+	wg      sync.WaitGroup
+	steps   int
+	preempt int
+	bound   int
+}
+
+func (ex *Exec) sched() *scheduler {
+	if ex.threads == nil {
+		s := &scheduler{ex: ex, bound: 2}
+		if b, ok := ex.eng.opts.Bounds["preempt"]; ok {
+			s.bound = int(b)
+		}
+		main := &thread{id: 0, wake: make(chan struct{}, 1), started: true}
+		s.threads = []*thread{main}
+		s.cur = main
+		ex.threads = s
+	}
+	return ex.threads
+}
+
+// spawn registers a new thread; it starts running when the scheduler first picks it.
+func (s *scheduler) spawnThread(fn Value) {
+	t := &thread{id: len(s.threads), wake: make(chan struct{}, 1), fn: fn}
+	s.threads = append(s.threads, t)
+	s.wg.Add(1)
+	go func() {
+		defer s.wg.Done()
+		<-t.wake
+		if t.kill {
+			t.state = 2
+			return
+		}
+		t.started = true
+		func() {
+			defer func() {
+				if r := recover(); r != nil {
+					if _, ok := r.(threadKill); !ok && s.abort == nil {
+						s.abort = r
+					}
+				}
+			}()
+			s.ex.call(nil, t.fn, nil, 0)
+		}()
+		t.state = 2
+		s.ex.effect()
+		s.exitThread(t)
+	}()
+}
+
+// exitThread hands control to another thread when t has finished (or aborted).
+func (s *scheduler) exitThread(t *thread) {
+	if s.abort != nil {
+		s.wakeThread(s.threads[0])
+		return
+	}
+	// wake joiners if everything else is done
+	next := s.pickRunnable(nil)
+	if next == nil {
+		main := s.threads[0]
+		if main.state == 3 {
+			if s.allOthersFinished() {
+				main.state = 0
+				s.wakeThread(main)
+				return
+			}
+			// some thread is blocked forever
+			s.abort = pathEnd{"deadlock", "all threads blocked"}
+			s.deadlock()
+			s.wakeThread(main)
+			return
+		}
+		return
+	}
+	s.wakeThread(next)
+}
+
+func (s *scheduler) deadlock() {
+	s.ex.reportViolation("deadlock", "deadlock", "every thread is blocked on a lock", true)
+}
+
+func (s *scheduler) allOthersFinished() bool {
+	for _, t := range s.threads[1:] {
+		if t.state != 2 {
+			return false
+		}
+	}
+	return true
+}
+
+func (s *scheduler) wakeThread(t *thread) {
+	s.cur = t
+	t.wake <- struct{}{}
+}
+
+func (s *scheduler) runnable() []*thread {
+	var rs []*thread
+	for _, t := range s.threads {
+		if t.state == 0 {
+			rs = append(rs, t)
+		}
+	}
+	return rs
+}
+
+// pickRunnable lets the exploration choose the next thread among the runnable ones (nil if none).
+func (s *scheduler) pickRunnable(prefer *thread) *thread {
+	rs := s.runnable()
+	if len(rs) == 0 {
+		return nil
+	}
+	if len(rs) == 1 {
+		return rs[0]
+	}
+	k := s.ex.choose(len(rs))
+	s.ex.recordConcreteInput("sched", "pick", uint64(rs[k].id))
+	return rs[k]
+}
+
+// waitTurn parks the calling thread until it is woken.
+func (s *scheduler) waitTurn(me *thread) {
+	<-me.wake
+	if me.kill {
+		panic(threadKill{})
+	}
+	if s.abort != nil && me.id == 0 {
+		a := s.abort
+		s.abort = nil
+		panic(a)
+	}
+}
+
+// yield is a scheduling point: any runnable thread (including the caller) may continue.
+func (s *scheduler) yield() {
+	me := s.cur
+	s.steps++
+	if s.steps > 4000 {
+		panic(pathEnd{"steps", "scheduler step budget exceeded"})
+	}
+	// preemption bounding (CHESS): switching away from a thread that could continue counts as a preemption;
+	// at most `bound` of them per execution (switches at blocking points and thread exits are free)
+	if me.state == 0 && s.preempt >= s.bound {
+		return
+	}
+	next := s.pickRunnable(me)
+	if next == nil || next == me {
+		return
+	}
+	s.preempt++
+	s.wakeThread(next)
+	s.waitTurn(me)
+}
+
+// block parks the caller until woken by an unlock (state must have been set by the caller).
+func (s *scheduler) block(me *thread) {
+	next := s.pickRunnable(nil)
+	if next == nil {
+		s.deadlock()
+		panic(pathEnd{"deadlock", "all threads blocked"})
+	}
+	s.wakeThread(next)
+	s.waitTurn(me)
+}
+
+// join: the main thread waits until every other thread has finished.
+func (s *scheduler) join() {
+	me := s.cur
+	if me.id != 0 {
+		panic(engineErr("vpJoin outside the main thread"))
+	}
+	for !s.allOthersFinished() {
+		me.state = 3
+		next := s.pickRunnable(nil)
+		if next == nil {
+			s.deadlock()
+			panic(pathEnd{"deadlock", "threads blocked at join"})
+		}
+		s.wakeThread(next)
+		s.waitTurn(me)
+		me.state = 0
+	}
+	me.state = 0
+	s.cur = me
+}
+
+// killAll terminates every parked thread (path end).
+func (s *scheduler) killAll() {
+	for _, t := range s.threads[1:] {
+		if t.state != 2 {
+			t.kill = true
+			select {
+			case t.wake <- struct{}{}:
+			default:
+			}
+		}
+	}
+	s.wg.Wait()
+}
+
+// ---- mutex model in concurrent mode: field 0 of the mutex struct holds 0 free, -1 writer, n>0 readers
+
+func (s *scheduler) isYieldingCaller() bool {
+	fn := s.ex.curFn
+	if fn == nil || fn.Pkg == nil {
+		return false
+	}
+	p := fn.Pkg.Pkg.Path()
+	return strings.HasSuffix(p, "/internal/dmap") || strings.HasSuffix(p, "/internal/locker") || strings.HasSuffix(p, "/internal/pubsub")
+}
+
+func (s *scheduler) lock(ex *Exec, m StructV, write bool) {
+	me := s.cur
+	cell := &m[0]
+	yielding := s.isYieldingCaller()
+	if yielding {
+		s.yield()
+	}
+	for {
+		st := (*cell).(*Term)
+		v := st.SVal()
+		if write && v == 0 {
+			*cell = ex.tc.Const(int(st.w), ^uint64(0))
+			return
+		}
+		if !write && v >= 0 {
+			*cell = ex.tc.Const(int(st.w), uint64(v+1))
+			return
+		}
+		me.state = 1
+		me.waitOn = cell
+		s.block(me)
+	}
+}
+
+func (s *scheduler) unlock(ex *Exec, m StructV, write bool) {
+	cell := &m[0]
+	st := (*cell).(*Term)
+	v := st.SVal()
+	if write {
+		if v != -1 {
+			ex.throw("sync: unlock of unlocked mutex")
+		}
+		*cell = ex.tc.Const(int(st.w), 0)
+	} else {
+		if v <= 0 {
+			ex.throw("sync: RUnlock of unlocked RWMutex")
+		}
+		*cell = ex.tc.Const(int(st.w), uint64(v-1))
+	}
+	for _, t := range s.threads {
+		if t.state == 1 && t.waitOn == cell {
+			t.state = 0
+			t.waitOn = nil
+		}
+	}
+}
+
+func (s *scheduler) tryLock(ex *Exec, m StructV) bool {
+	cell := &m[0]
+	st := (*cell).(*Term)
+	if st.SVal() != 0 {
+		return false
+	}
+	*cell = ex.tc.Const(int(st.w), ^uint64(0))
+	return true
+}
+
+func (s *scheduler) spawn(ex *Exec, fn Value, args []Value) {
+	s.spawnThread(&boundCall{fn: fn, args: args})
+}
+
+// boundCall is a function value with pre-bound arguments (for `go f(x)`)
+type boundCall struct {
+	fn   Value
+	args []Value
+}
+
+func (s *scheduler) chanSend(ex *Exec, c *ChanV, v Value) {
+	if c.cap > 0 && len(c.buf) >= c.cap {
+		panic(pathEnd{"block", "send on full channel in concurrent mode"})
+	}
+	c.buf = append(c.buf, v)
+}
+
+func (s *scheduler) chanRecv(ex *Exec, c *ChanV, commaOk bool) Value {
+	for len(c.buf) == 0 && !c.closed {
+		me := s.cur
+		next := s.pickRunnable(nil)
+		if next == nil || next == me {
+			panic(pathEnd{"block", "receive on empty channel in concurrent mode"})
+		}
+		s.wakeThread(next)
+		s.waitTurn(me)
+	}
+	var v Value
+	ok := true
+	if len(c.buf) > 0 {
+		v = c.buf[0]
+		c.buf = c.buf[1:]
+	} else {
+		v = ex.zero(c.elemT)
+		ok = false
+	}
+	if commaOk {
+		return Tuple{v, ex.tc.Bool(ok)}
+	}
+	return v
+}
+
+func (s *scheduler) wakeAll() {}
+
+var _ = fmt.Sprintf
